@@ -597,6 +597,27 @@ def iter_step(case, reg, toks, t, fails):
     return True
 
 
+def serde_step(case, reg, toks, t, fails):
+    src = case.state[reg]["ents"]
+    dst = toks[2]
+    dcap = case.caps[dst]
+    if len(src) > dcap:
+        return True                      # insufficient capacity: outside the property
+    if t["outcome"] != "ok":
+        fails.append("serde round trip of %s into capacity %d ended %s" % (reg, dcap, t["outcome"]))
+        return True
+    parts = t["ret"].strip("[]").split(",")
+    if len(parts) != 3 or parts[2] != "ok":
+        fails.append("serde round trip of %s (%d entries) into capacity %d: %s" % (reg, len(src), dcap, t["ret"]))
+        return True
+    if int(parts[0]) != len(src) or int(parts[1]) != len(src):
+        fails.append("serialize announced %s and emitted %s entries, len() is %d" % (parts[0], parts[1], len(src)))
+    g = t["snaps"].get(dst)
+    if g is not None and ms(g["ents"], False) != ms(src, False):
+        fails.append("decoded container holds %s, the original holds %s" % (ms(g["ents"], False), ms(src, False)))
+    return True
+
+
 def run(prop, ops_path, impl_path, profile):
     """-> list of failures: dict(case, op, what, impl, case_lines)"""
     import compare
@@ -677,6 +698,8 @@ def run(prop, ops_path, impl_path, profile):
                         consume_step(case, reg, toks, t, fails)
                     if "iter" in fam and op == "iter":
                         iter_step(case, reg, toks, t, fails)
+                    if "serde" in fam and op == "serde":
+                        serde_step(case, reg, toks, t, fails)
                 except (ValueError, IndexError, KeyError) as ex:       # an oracle bug must not look like a finding
                     fails = [f for f in fails if not f.startswith("oracle-error")]
                     fails.append("oracle-error: %r on %s" % (ex, opl))
